@@ -1175,6 +1175,13 @@ def analyse(ck, prog, deep=False):
         # for the request (or omit documented text)
         from .c16 import check_decode_map
         check_decode_map(ck, _Engine(prog, cls), prefix='C06-D9')
+        # ... and on the comparison made with the decoded value: the command sequence of the
+        # single-motor protocol (CU,50,0 / QE / preliminary EM,r,r only when the board's global
+        # resolution differs / EM,r1,r2) is decided per (request, board state) case
+        from . import c16 as _c16
+        _c16.check_motors_enable(_c16.Renamed(ck, {'C16-D5-motor-protocol':
+                                                   'C06-D10-motor-protocol'}),
+                                 _Engine(prog, cls, inject=False))
         # what a helper sends depends on its arguments, not on earlier calls
         from .. import purity
         reqs = [n for n in public_methods(cls) if not n.startswith('_')
